@@ -354,8 +354,20 @@ package nbs
 
 // ---- batched lookups over one table (C01): a request is never silently dropped
 
+//@ func verif_idxCount
+//@   pure
+//@   opaque
+//@ func verif_idxSfx
+//@   pure
+//@   opaque
+//@ func verif_hmMatch
+//@   pure
+//@ extern (github.com/dolthub/dolt/go/store/nbs.tableIndex).chunkCount as verif_x_tableIndex_chunkCount
+//@   modifies nothing
+//@   ensures n == verif_idxCount(ti)
 //@ extern (github.com/dolthub/dolt/go/store/nbs.tableIndex).entrySuffixMatches as verif_x_tableIndex_entrySuffixMatches
 //@   modifies nothing
+//@   ensures err == nil ==> m == verif_idxSfx(ti, idx, h)
 //@   ghost_set verif_ghost.tMatched = m
 //@   ghost_set verif_ghost.tMatchIdx = idx
 //@ extern (github.com/dolthub/dolt/go/store/nbs.tableIndex).indexEntry as verif_x_tableIndex_indexEntry
@@ -378,14 +390,37 @@ package nbs
 //@     invariant forall k in 0..i: !reqs[k].found ==> remaining
 
 // hasMany: when it reports nothing remaining, every requested address was marked present.
+// Completeness: whenever index entry tGJ holds the address of request tGK (for EVERY such pair, see verif_ghost),
+// a normal return has marked that request present. The reader is well formed (its prefix copy has one entry per
+// chunk and is sorted, as the index stores it) and the requests are sorted by prefix, as every caller sorts them.
+// Sortedness is needed between neighbours and relative to the one entry / request under consideration.
 //@ func (tableReader).hasMany
 //@   property C01 C06
+//@   requires verif_idxCount(tr.idx) == uint32(len(tr.prefixes)) && len(tr.prefixes) < 1<<32
+//@   requires forall t in 1..len(tr.prefixes): tr.prefixes[t-1] <= tr.prefixes[t]
+//@   requires 0 <= verif_ghost.tGJ && verif_ghost.tGJ < len(tr.prefixes) ==> forall t in 0..len(tr.prefixes): (t <= verif_ghost.tGJ ==> tr.prefixes[t] <= tr.prefixes[verif_ghost.tGJ]) && (t >= verif_ghost.tGJ ==> tr.prefixes[t] >= tr.prefixes[verif_ghost.tGJ])
+//@   requires 0 <= verif_ghost.tGK && verif_ghost.tGK < len(addrs) ==> forall t in 0..len(addrs): t <= verif_ghost.tGK ==> addrs[t].prefix <= addrs[verif_ghost.tGK].prefix
 //@   ensures  result2 == nil && result1 == gcBehavior_Continue && !result0 ==> forall k in 0..len(addrs): addrs[k].has
+//@   ensures  result2 == nil && result1 == gcBehavior_Continue && verif_hmMatch(tr, addrs) ==> addrs[verif_ghost.tGK].has
 //@   loop 1
+//@     invariant !remaining ==> forall k in 0..i: addrs[k].has
+//@     invariant filterLen == uint32(len(tr.prefixes)) && filterIdx <= filterLen && 0 <= rangeidx && rangeidx <= len(addrs)
+//@     invariant verif_hmMatch(tr, addrs) && rangeidx <= verif_ghost.tGK ==> int(filterIdx) <= verif_ghost.tGJ
+//@     invariant verif_hmMatch(tr, addrs) && verif_ghost.tGK < rangeidx ==> addrs[verif_ghost.tGK].has
+//@   loop 2
+//@     invariant filterLen == uint32(len(tr.prefixes)) && filterIdx <= j && j <= filterLen && 0 <= i && i < len(addrs)
+//@     invariant j < filterLen ==> tr.prefixes[j] >= addr.prefix
+//@     invariant verif_hmMatch(tr, addrs) && i <= verif_ghost.tGK ==> int(filterIdx) <= verif_ghost.tGJ
+//@     invariant verif_hmMatch(tr, addrs) && verif_ghost.tGK < i ==> addrs[verif_ghost.tGK].has
 //@     invariant !remaining ==> forall k in 0..i: addrs[k].has
 //@   loop 3
 //@     invariant 0 <= i && i < len(addrs)
 //@     invariant !remaining ==> forall k in 0..i: addrs[k].has
+//@     invariant filterLen == uint32(len(tr.prefixes)) && filterIdx < filterLen && filterIdx <= j && tr.prefixes[filterIdx] == addr.prefix
+//@     invariant j > filterIdx ==> tr.prefixes[j-1] == addr.prefix
+//@     invariant verif_hmMatch(tr, addrs) && i < verif_ghost.tGK ==> int(filterIdx) <= verif_ghost.tGJ
+//@     invariant verif_hmMatch(tr, addrs) && verif_ghost.tGK < i ==> addrs[verif_ghost.tGK].has
+//@     invariant verif_hmMatch(tr, addrs) && i == verif_ghost.tGK && !addrs[i].has ==> int(j) <= verif_ghost.tGJ
 
 // ---- blobstore-backed manifest: success is reported only after the conditional write succeeded (C42)
 
@@ -1000,3 +1035,40 @@ package nbs
 //@   at call parseIfExists: assert verif_ghost.mLockHeld
 //@   ensures  result1 == nil ==> verif_ghost.mLockHeld
 //@   ensures  result1 != nil ==> !verif_ghost.mLockHeld
+
+// ---- generational store: a batched presence check asks each generation about exactly what the previous one lacks (C01)
+
+// The absent sets are Go maps, opaque to the engine: what is decided is the dataflow between the generations (who is
+// asked about which set, and which set is handed back), with len() of a set stable between calls.
+//@ func (*NomsBlockStore).HasMany
+//@   property C01
+//@   trusted the result is the subset of |hashes| that the store lacks (a Go map); the table, memtable, journal and archive lookups below it are under their own contracts
+//@   modifies nothing
+//@   ghost_set verif_ghost.gHMCount = verif_ghost.gHMCount + 1
+//@   ghost_set verif_ghost.gHMLast = result0
+//@   ghost_set verif_ghost.gHMLastEmpty = (len(result0) == 0)
+//@   ghost_set verif_ghost.gHMLastStore = nbs
+//@ func (GhostBlockStore).HasMany
+//@   property C01
+//@   trusted the result is the subset of |hashes| that are not ghost chunks (a Go map)
+//@   modifies nothing
+//@   ghost_set verif_ghost.gHMCount = verif_ghost.gHMCount + 1
+//@   ghost_set verif_ghost.gHMLast = result0
+//@   ghost_set verif_ghost.gHMLastEmpty = (len(result0) == 0)
+//@   ghost_set verif_ghost.gHMGhost = true
+
+// GenerationalNBS.HasMany: the first query is about the caller's set, every later one about exactly what the
+// previous generation reported absent; both generations (and the ghost generation, when there is one) are asked
+// before anything is reported absent; what is handed back is the last absent set, and nothing is reported absent
+// only when some generation found everything it was asked about
+//@ func (*GenerationalNBS).HasMany
+//@   property C01
+//@   requires gcs != nil && gcs.newGen != nil && gcs.oldGen != nil && gcs.newGen != gcs.oldGen
+//@   requires verif_ghost.gHMCount == 0 && verif_ghost.gHMLastStore == nil && !verif_ghost.gHMGhost
+//@   at call (*NomsBlockStore).HasMany: assert (arg0:*NomsBlockStore == gcs.newGen || arg0:*NomsBlockStore == gcs.oldGen) && arg0:*NomsBlockStore != verif_ghost.gHMLastStore
+//@   at call (*NomsBlockStore).HasMany: assert (verif_ghost.gHMCount == 0 && verif_samemap(arg2:hash.HashSet, hashes)) || (verif_ghost.gHMCount != 0 && !verif_ghost.gHMLastEmpty && verif_samemap(arg2:hash.HashSet, verif_ghost.gHMLast))
+//@   at call (GhostBlockStore).HasMany: assert verif_ghost.gHMCount == 2 && !verif_ghost.gHMLastEmpty && verif_samemap(arg2:hash.HashSet, verif_ghost.gHMLast)
+//@   ensures  result1 == nil && verif_ghost.gHMCount > 0 && !verif_ghost.gHMLastEmpty ==> verif_samemap(result0, verif_ghost.gHMLast) && verif_ghost.gHMCount >= 2 && (gcs.ghostGen == nil || verif_ghost.gHMGhost)
+//@   ensures  result1 == nil ==> verif_ghost.gHMCount > 0
+//@   ensures  result1 == nil && verif_ghost.gHMLastEmpty ==> len(result0) == 0
+//@   also_modifies verif_ghost.gHMCount, verif_ghost.gHMLast, verif_ghost.gHMLastEmpty, verif_ghost.gHMLastStore, verif_ghost.gHMGhost
